@@ -23,6 +23,22 @@ Proof.
   intros Ht. unfold write_x, write_x_ok. rewrite (next_ok_small (rot c) t Ht). destruct (should_rollover s t); reflexivity.
 Qed.
 
+  (** the landings of a run: the new ones are exactly the writes, in order, each tagged with this lifetime and
+      flagged "not behind an earlier reading"; the older ones are untouched underneath *)
+  Fixpoint annotate (m : Z) (ws : list (Z * chunk)) : list (Z * chunk * bool) :=
+    match ws with
+    | [] => []
+    | w :: r => (fst w, snd w, m <=? fst w) :: annotate (Z.max m (fst w)) r
+    end.
+
+  Lemma annotate_sorted : forall ws m, (forall u, In u (map fst ws) -> m <= u) -> StronglySorted Z.le (map fst ws) ->
+    forall x, In x (annotate m ws) -> snd x = true.
+  Proof.
+    induction ws as [|[t b] ws IH]; simpl; intros m Hm Hs x Hx; [tauto|]. inversion Hs; subst. rewrite Forall_forall in H2.
+    destruct Hx as [<-|Hx]; simpl; [apply Z.leb_le; auto|].
+    apply (IH (Z.max m t)); auto. intros u Hu. specialize (Hm u (or_intror Hu)). specialize (H2 u Hu). lia.
+  Qed.
+
 Section Exclusive.
   Variable c : config.
   Variable sp : state.            (* what the previous lifetimes (or nobody: [blank pre tick0]) left behind *)
@@ -115,14 +131,6 @@ Section Exclusive.
     intros ws V l Hl E. destruct (XInv_run ws s0 XInv_init V) as [_ [_ [_ [_ [XL [XE _]]]]]]. apply XL; auto. congruence.
   Qed.
 
-  (** the landings of a run: the new ones are exactly the writes, in order, each tagged with this lifetime and
-      flagged "not behind an earlier reading"; the older ones are untouched underneath *)
-  Fixpoint annotate (m : Z) (ws : list (Z * chunk)) : list (Z * chunk * bool) :=
-    match ws with
-    | [] => []
-    | w :: r => (fst w, snd w, m <=? fst w) :: annotate (Z.max m (fst w)) r
-    end.
-
   Lemma write_x_lands s t b : t < TBOUND ->
     lands (write_x c s t b) =
     {| l_file := cur (write_x c s t b); l_t := t; l_buf := b; l_tid := 0%nat; l_clean := true; l_nd := maxstart s <=? t; l_life := life s |} :: lands s /\
@@ -150,14 +158,6 @@ Section Exclusive.
       + rewrite rev_app_distr. simpl. rewrite E2, EM. reflexivity.
       + intros l Hl. apply in_app_or in Hl. destruct Hl as [Hl|[<-|[]]]; [rewrite (E3 l Hl); exact EF|reflexivity].
       + congruence.
-  Qed.
-
-  Lemma annotate_sorted : forall ws m, (forall u, In u (map fst ws) -> m <= u) -> StronglySorted Z.le (map fst ws) ->
-    forall x, In x (annotate m ws) -> snd x = true.
-  Proof.
-    induction ws as [|[t b] ws IH]; simpl; intros m Hm Hs x Hx; [tauto|]. inversion Hs; subst. rewrite Forall_forall in H2.
-    destruct Hx as [<-|Hx]; simpl; [apply Z.leb_le; auto|].
-    apply (IH (Z.max m t)); auto. intros u Hu. specialize (Hm u (or_intror Hu)). specialize (H2 u Hu). lia.
   Qed.
 
   (** nothing lost, exactly once, in order; what the lifetime leaves behind is fit for the next appender *)
@@ -210,4 +210,36 @@ Section Exclusive.
   (** with a file limit, from the first rotation of this lifetime on - also when the lifetime starts above the limit *)
   Theorem x_prune_limit : forall ws, Forall valid_w ws -> Limit c (run_x c s0 ws).
   Proof. intros ws V. apply (XInv_run ws s0 XInv_init V). Qed.
+
+  (** entries that are not the appender's own log files are never touched *)
+  Lemma cur_matches s : XInv s -> matches c (cur s) = true.
+  Proof.
+    intros [_ [M [XN [XR _]]]]. pose proof TBOUND_TCAL. destruct (rotation_eq_dec k Never) as [Hk|Hk].
+    - destruct (XN Hk) as [_ ->]. apply join_date_matches. lia.
+    - destruct (XR Hk) as [tl [H1 [_ [-> _]]]]. apply join_date_matches. lia.
+  Qed.
+
+  Lemma write_x_keeps_foreign s t b f : XInv s -> 0 <= t < TBOUND ->
+    In f (dir s) -> matches c (fname f) = false -> In f (dir (write_x c s t b)).
+  Proof.
+    intros X Ht Hf Hnm. pose proof (cur_matches s X) as Hc. destruct X as [[HD _] _].
+    rewrite write_x_in_range by apply Ht. unfold write_x_ok. destruct (should_rollover s t); simpl.
+    - destruct (refresh_fields c (set_next s (next_usize (rot c) t)) t) as [_ [R2 _]]. rewrite R2.
+      apply append_keeps_other; [apply refresh_keeps_foreign; auto|].
+      intro E. pose proof (join_date_matches c t) as Hm. pose proof TBOUND_TCAL. rewrite <- E in Hm. rewrite Hm in Hnm by lia. discriminate.
+    - apply append_keeps_other; auto. intro E. rewrite <- E in Hc. congruence.
+  Qed.
+
+  Theorem x_foreign_untouched : forall ws, Forall valid_w ws ->
+    forall f, In f (dir sp) -> matches c (fname f) = false -> In f (dir (run_x c s0 ws)).
+  Proof.
+    intros ws V f Hf Hnm.
+    assert (G : forall ws s, XInv s -> Forall valid_w ws -> In f (dir s) -> In f (dir (run_x c s ws))).
+    { induction ws0 as [|[t b] ws0 IH]; simpl; intros s X V0 H; auto. inversion V0; subst.
+      apply IH; auto; [apply XInv_write; auto|apply write_x_keeps_foreign; auto]. }
+    apply G; auto; [apply XInv_init|].
+    unfold s0, restart. rewrite (next_ok_small (rot c) t0 (proj2 Ht0)).
+    destruct (create (join_date c t0) (dir sp) (tick sp)) as [d tk] eqn:Hc. simpl.
+    replace d with (fst (create (join_date c t0) (dir sp) (tick sp))) by (rewrite Hc; reflexivity). apply create_keeps. exact Hf.
+  Qed.
 End Exclusive.
